@@ -282,7 +282,67 @@ fn res_cases() -> Vec<ResCase> {
         let allowed = subtree(&m, &loc(1, &[1]));
         v.push(ResCase { name: "timeout-in-callee", module: m.clone(), cfg: CfgLite { max_instr: budget, ..Default::default() }, kind: "Timeout", allowed, chain_allowed: vec![loc(0, &[0, 0])] });
     }
+    // every budget on loops whose bodies are Comment cards: whatever instruction the budget ends
+    // on belongs to the loop card, its count / iterable expression or a neighbouring statement -
+    // never to the Comment, which emits no code
+    let not_comment = |m: &Module, top: usize| -> Vec<Loc> {
+        let mut all = Vec::new();
+        for i in 0..top {
+            all.extend(subtree(m, &loc(0, &[i as u32])));
+        }
+        all.into_iter().filter(|l| !matches!(card_at(m, l), Some(C::Comment(_)))).collect()
+    };
+    let note = || C::Comment("nothing to do".into());
+    let loops: Vec<(&'static str, Module, usize)> = vec![
+        ("timeout-sweep-repeat", module(vec![("main", func(&[], vec![sv("a", int(1)), C::Repeat { n: b(add(int(1), int(2))), i: Some("i".into()), body: b(note()) }, sg("after", rv("a"))]))]), 3),
+        ("timeout-sweep-repeat-anonymous", module(vec![("main", func(&[], vec![C::Repeat { n: b(int(3)), i: None, body: b(note()) }, sg("after", int(1))]))]), 2),
+        ("timeout-sweep-foreach", module(vec![("main", func(&[], vec![sv("t", C::Array(vec![int(1), int(2)])), C::ForEach { i: Some("i".into()), k: Some("k".into()), v: Some("v".into()), iterable: b(rv("t")), body: b(note()) }, sg("after", int(1))]))]), 3),
+        ("timeout-sweep-nested", module(vec![("main", func(&[], vec![C::Repeat { n: b(int(2)), i: Some("i".into()), body: b(C::Repeat { n: b(int(2)), i: Some("j".into()), body: b(comp(vec![note(), note()])) }) }, sg("after", int(1))]))]), 2),
+        ("timeout-sweep-while", module(vec![("main", func(&[], vec![sv("x", int(0)), C::While(b(bin(BinOp::Less, rv("x"), int(0))), b(note())), C::IfTrue(b(int(1)), b(note())), sg("after", int(1))]))]), 4),
+    ];
+    for (name, m, top) in loops {
+        let allowed = not_comment(&m, top);
+        for budget in 1..=90u64 {
+            v.push(ResCase { name, module: m.clone(), cfg: CfgLite { max_instr: budget, ..Default::default() }, kind: "?Timeout", allowed: allowed.clone(), chain_allowed: vec![] });
+        }
+    }
     v
+}
+
+/// compile errors raised by a loop card itself (an empty loop variable name): (module, the loop card)
+fn loop_name_cases() -> Vec<(Module, Loc)> {
+    let mut v = Vec::new();
+    let empty = || Some(String::new());
+    let ok = |n: &str| Some(n.to_string());
+    let body = || sg("g", int(1));
+    let loops: Vec<C> = vec![
+        C::Repeat { n: b(int(2)), i: empty(), body: b(body()) },
+        C::ForEach { i: empty(), k: ok("k"), v: ok("v"), iterable: b(C::CreateTable), body: b(body()) },
+        C::ForEach { i: ok("i"), k: empty(), v: ok("v"), iterable: b(C::CreateTable), body: b(body()) },
+        C::ForEach { i: None, k: None, v: empty(), iterable: b(C::CreateTable), body: b(body()) },
+    ];
+    for l in loops {
+        // at top level behind another statement, inside a composite, inside another loop's body, in a callee
+        v.push((module(vec![("main", func(&[], vec![sv("a", int(1)), l.clone()]))]), loc(0, &[1])));
+        v.push((module(vec![("main", func(&[], vec![comp(vec![sv("a", int(1)), sv("bb", int(2)), l.clone()])]))]), loc(0, &[0, 2])));
+        v.push((module(vec![("main", func(&[], vec![C::Repeat { n: b(int(1)), i: Some("outer".into()), body: b(l.clone()) }]))]), loc(0, &[0, 1])));
+        v.push((module(vec![("main", func(&[], vec![sg("r", call("f", vec![]))])), ("f", func(&[], vec![sv("a", int(1)), sv("bb", int(1)), l.clone()]))]), loc(1, &[2])));
+    }
+    v
+}
+
+fn run_loop_name_case(m: &Module, want: &Loc) -> Option<(String, String)> {
+    let (co, _) = realrun::compile_real(m);
+    match co {
+        CompileOutcome::Err { loc: got, kind } => {
+            if got.as_ref() != Some(want) {
+                return Some((format!("compile-loc:loop-variable:{}", relation(m, want, got.as_ref())), format!("{kind}: the error location is {}, the loop card with the empty variable name is {}", got.as_ref().map(|l| describe(m, l)).unwrap_or_else(|| "<missing>".into()), describe(m, want))));
+            }
+            None
+        }
+        CompileOutcome::Ok => Some(("compile-loc:loop-variable:accepted".into(), format!("a loop with an empty variable name compiles ({})", describe(m, want)))),
+        other => Some(("compile-loc:loop-variable:panic".into(), format!("{other:?}"))),
+    }
 }
 
 fn run_res_case(c: &ResCase) -> Option<(String, String)> {
@@ -290,14 +350,33 @@ fn run_res_case(c: &ResCase) -> Option<(String, String)> {
     let (co, prog) = realrun::compile_real(&c.module);
     let (CompileOutcome::Ok, Some(prog)) = (co, prog) else { return Some(("resource:compile".into(), format!("{}: does not compile", c.name))) };
     let got = realrun::run_program(&c.module, &prog, &natives, &RunCfg::from(&c.cfg));
+    // '?' = the error is optional: a run that ends Ok (the budget was sufficient) is not judged
+    if let Some(k) = c.kind.strip_prefix('?') {
+        if got.result == "Ok" {
+            return None;
+        }
+        if got.result != k {
+            return Some((format!("resource:{}:kind:{}", c.name, got.result), format!("{} with {:?}: expected {k} or Ok, got {}", c.name, c.cfg, got.result)));
+        }
+    }
     let kind_ok = match c.kind.strip_prefix('*') {
         Some(k) => got.result == k || got.result.ends_with(&format!(":{k})")),
-        None => got.result == c.kind,
+        None => got.result == c.kind.trim_start_matches('?'),
     };
     if !kind_ok {
         return Some((format!("resource:{}:kind:{}", c.name, got.result), format!("{} with {:?}: expected {}, got {}", c.name, c.cfg, c.kind, got.result)));
     }
     let t0 = got.trace.first();
+    // the instructions behind the last card of a function (its implicit return / the exit of main)
+    // belong to no card: a budget that ends there is reported one past the last card and not judged
+    if c.kind.starts_with('?') {
+        if let Some(l) = t0 {
+            let cards = c.module.functions.get(l.function).map(|f| f.1.cards.len()).unwrap_or(0);
+            if l.ns.is_empty() && l.path.len() == 1 && l.path[0] as usize == cards {
+                return None;
+            }
+        }
+    }
     if !t0.map(|l| c.allowed.contains(l)).unwrap_or(false) {
         let want = &c.allowed[0];
         return Some((
@@ -331,10 +410,10 @@ impl Check for C15 {
     fn info(&self, tier: Tier) -> CheckInfo {
         let fams = families(tier);
         CheckInfo {
-            rule: "F-errinject: 5 base programs (calls at depth 0-2 with locals and arguments; three nested modules; closures and dynamic calls of script / native values with computed arguments; Repeat / ForEach / While / IfElse; table cards, dotted names and natives) x every value-producing card position x 5 injected failing expressions (missing native, wrong-type table operand, non-function callee, failing host function, PopTable of a string): trace[0] must be the location the reference interpreter reports for the card that raised the error, trace[1..] the call cards of the active chain innermost first with their namespaces, optionally followed by one entry for the program entry. F-compile-errloc: the same positions x 4 cards the compiler must reject (unknown function in Call / Function / inside a dynamic call, empty variable name): the error location must be that card. Resource errors with constructively known location: call-depth exhaustion (4 call-stack sizes), value-stack exhaustion (every stack size for 3 expression depths: the exact literal), OutOfMemory with live data (string literal, CreateTable, Closure, Function, NativeFunction, Get row, host-function allocation stored into a reachable table x 4 limits: the producing card or the storing SetProperty; SetProperty / AppendTable growth with integer values: exactly that card), Timeout (14 budgets: a card of the spinning loop, chain = the call card). 'states' = distinct (error location, chain) per chunk".into(),
+            rule: "F-errinject: 5 base programs (calls at depth 0-2 with locals and arguments; three nested modules; closures and dynamic calls of script / native values with computed arguments; Repeat / ForEach / While / IfElse; table cards, dotted names and natives) x every value-producing card position x 5 injected failing expressions (missing native, wrong-type table operand, non-function callee, failing host function, PopTable of a string): trace[0] must be the location the reference interpreter reports for the card that raised the error, trace[1..] the call cards of the active chain innermost first with their namespaces, optionally followed by one entry for the program entry. F-compile-errloc: the same positions x 4 cards the compiler must reject (unknown function in Call / Function / inside a dynamic call, empty variable name): the error location must be that card. Resource errors with constructively known location: call-depth exhaustion (4 call-stack sizes), value-stack exhaustion (every stack size for 3 expression depths: the exact literal), OutOfMemory with live data (string literal, CreateTable, Closure, Function, NativeFunction, Get row, host-function allocation stored into a reachable table x 4 limits: the producing card or the storing SetProperty; SetProperty / AppendTable growth with integer values: exactly that card), Timeout (14 budgets: a card of the spinning loop, chain = the call card); every budget 1..90 on five programs whose loop bodies are Comment cards (Repeat named / anonymous, ForEach, nested Repeat, While + IfTrue): the reported card is never a Comment and always a card of main; compile errors raised by a loop card itself (empty loop variable name of Repeat / ForEach i, k, v at top level, in a composite, in a loop body, in a callee): exactly that card. 'states' = distinct (error location, chain) per chunk".into(),
             bound: format!("families {:?} + {} resource cases", fams.iter().map(|f| format!("{}={}", f.name(), f.len())).collect::<Vec<_>>(), res_cases().len()),
             exhaustive: true,
-            assumptions: vec!["errors raised inside library callbacks and host re-entry are excluded (frames created by run_function carry no call card)".into(), "injected cards that are not reached (dead branches) produce no error and are skipped".into()],
+            assumptions: vec!["a Timeout on the implicit instructions behind the last card of a function (implicit return, exit of main) is reported one past the last card: no card owns them, such reports are not judged".into(), "errors raised inside library callbacks and host re-entry are excluded (frames created by run_function carry no call card)".into(), "injected cards that are not reached (dead branches) produce no error and are skipped".into()],
             explanation: "locations are read from ExecutionError.trace / CompilationError.loc of the real implementation and resolved against the source module".into(),
         }
     }
@@ -361,12 +440,29 @@ impl Check for C15 {
                 Some((k, w)) => out.violation(Violation::new("C15", k, w, json!({"resource_case": i}))),
             }
         }
+        for (i, (m, want)) in loop_name_cases().iter().enumerate() {
+            out.evaluations += 1;
+            out.traces += 1;
+            match run_loop_name_case(m, want) {
+                None => {
+                    out.nontrivial += 1;
+                    out.states += 1;
+                    out.outcome("loop variable name ok".to_string());
+                }
+                Some((k, w)) => out.violation(Violation::new("C15", k, w, json!({"loop_name_case": i}))),
+            }
+        }
     }
     fn replay(&self, case: &J) -> Option<Violation> {
         if let Some(i) = case["resource_case"].as_u64() {
             let cases = res_cases();
             let c = cases.get(i as usize)?;
             return run_res_case(c).map(|(k, w)| Violation::new("C15", k, w, case.clone()));
+        }
+        if let Some(i) = case["loop_name_case"].as_u64() {
+            let cases = loop_name_cases();
+            let (m, want) = cases.get(i as usize)?;
+            return run_loop_name_case(m, want).map(|(k, w)| Violation::new("C15", k, w, case.clone()));
         }
         progcheck::replay(&JUDGE, case)
     }
